@@ -111,6 +111,10 @@ pub fn check_case(c: &Case) -> (Vec<Viol>, &'static str) {
         Err(p) => return (vec![viol(format!("C01:panic@{}", crate::report::panic_class(&p)), format!("case {}: assemble panics: {}", c.id, p), rep)], "panic"),
         Ok(o) => o,
     };
+    // second use: the same module assembles to the same words again
+    if guarded(|| loaded.assemble()).ok().as_ref() != Some(&out) {
+        viols.push(viol(format!("C01:repeat:{}", first_name), format!("case {}: a second assemble() of the loaded module differs from the first", c.id), rep.clone()));
+    }
     if out.len() < 5 || out[0] != golden().magic || out[1] != (c.version & 0x00FF_FF00) || out[3] != c.bound {
         viols.push(viol("C01:header", format!("case {}: output header {:x?}, input carried version {:#x} and bound {}", c.id, &out[..out.len().min(5)], c.version, c.bound), rep.clone()));
     } else if out[5..] != want[..] {
@@ -239,8 +243,13 @@ pub fn cases(tier: Tier) -> Vec<Case> {
         out.push(Case { id: format!("Source:string:len{}", len), insts: vec![src], raw: None, version: 0x0001_0000, bound: 9 });
     }
     // header variations
-    for (v, b) in [(0u32, 0u32), (0x00FF_FF00, 1), (0x0001_0600, u32::MAX), (0xFFFF_FFFF, 0x8000_0000)] {
+    for (v, b) in [(0u32, 0u32), (0x00FF_FF00, 1), (0x0001_0600, u32::MAX), (0xFFFF_FFFF, 0x8000_0000), (0x0001_0000, 5), (0x0001_0300, 0x0723_0203)] {
         out.push(Case { id: format!("Capability:header:{:x}:{}", v, b), insts: vec![Inst::new("Capability", None, None, vec![Arg::Enum("Capability", 1)])], raw: None, version: v, bound: b });
+        // the bound is carried over as it is, whatever ids the module defines (smaller, equal, larger than the bound)
+        let defs = vec![Inst::new("TypeVoid", None, Some(7), vec![]), Inst::new("TypeBool", None, Some(0xFFFF_FFF0), vec![])];
+        out.push(Case { id: format!("TypeVoid:header-with-ids:{:x}:{}", v, b), insts: defs, raw: None, version: v, bound: b });
+        // and an empty module (header only)
+        out.push(Case { id: format!("Nop:header-only:{:x}:{}", v, b), insts: vec![], raw: None, version: v, bound: b });
     }
     out
 }
